@@ -27,3 +27,14 @@ def run(report, tier):
                        f"relative to two Decay blocks x 4 value rotations over {len(H.VALUES)} literal forms",
                 functions=FUNCS, timeout=900 if thorough else 480, concrete_body=True, sample={"kind": "jetset", "text": "JetSetPar MSTJ(26)=3"})
     chrun.run_harness(report, h)
+    hv = Harness(name="values", module="harness.c07", body="body_values", sig="sel: int, x: float, y: float", n_sel=H.N_VALUES,
+                 pre=["x == x", "y == y"],
+                 claim="numbers are reported as the numbers written, for every value: Define, Particle mass / width (given, or reference width), "
+                       "BlattWeisskopf, ChangeMassMin/Max, Pythia numeric values, branching fraction and numeric model parameters; later "
+                       "Define wins; repeated BlattWeisskopf raises",
+                 bounds="8 hand-built statement trees (the query functions run on them directly; tokens are stand-ins carrying the value)",
+                 symbolic="two numeric token values: any non-NaN float (zero, negative, huge, subnormal, infinite included)",
+                 functions=["dec.get_definitions", "dec.get_particle_property_definitions", "dec.get_lineshape_settings", "dec.get_pythia_definitions",
+                            "dec.get_branching_fraction", "dec.get_model_parameters", "dec.DecayModelParamValueReplacement"],
+                 shards=8, timeout=300, sample={"tree": "particle_def(MyRho, x, y)", "x": "symbolic", "y": "symbolic"})
+    chrun.run_harness(report, hv)
